@@ -4,7 +4,7 @@ From Coq Require Import List Bool Arith ZArith QArith String Lia.
 Import ListNotations.
 From DA Require Import Base.PyRT Base.Val Model.Sem Proofs.SemBasicP Model.ColumnsUsed Proofs.ColumnsUsedP1 Proofs.ColumnsUsedP2
   Proofs.ColumnsUsedP3 Proofs.ColumnsUsedP4 Proofs.ComposeP Model.SqlGen Model.SqlSem Proofs.SqlGenP1 Proofs.SqlGenP2 Proofs.SqlGenP3
-  Proofs.SqlGenP4 Proofs.SqlGenP5 Proofs.SqlGenP6 Proofs.SqlGenP10 Proofs.SqlGenP11 Proofs.SqlGenP12 Proofs.SqlGenP13 Proofs.SqlGenP14 Proofs.SqlGenP15 Proofs.SqlGenP16 Proofs.SqlGenP17.
+  Proofs.SqlGenP4 Proofs.SqlGenP5 Proofs.SqlGenP6 Proofs.SqlGenP10 Proofs.SqlGenP11 Proofs.SqlGenP12 Proofs.SqlGenP13 Proofs.SqlGenP14 Proofs.SqlGenP15 Proofs.SqlGenP16 Proofs.SqlGenP17 Proofs.SqlGenP18 Proofs.SqlGenP19.
 Local Open Scope list_scope.
 
 Definition req (p : op) (usg : option (list string)) : list string :=
@@ -55,7 +55,7 @@ Theorem gen_stage1 : forall fuel d p usg n q n',
   builder_ok p = true -> stage1 (d_allow_extend_merges d) (join_covered d fl) p = true -> wf_env e p ->
   NoDup (req p usg) -> incl (req p usg) (column_names p) ->
   to_near_f fuel d p usg n = Ok (q, n') ->
-  exists T, sem_gen fl p e = Some T /\ Delivers fl e q (req p usg) T /\ (d_allow_extend_merges d = true -> win_top p = false -> MergeInv q).
+  exists T, sem_gen fl p e = Some T /\ Delivers fl e q (req p usg) T /\ (d_allow_extend_merges d = true -> MergeInvN q).
 Proof.
   induction fuel as [|fuel IH]; intros d p usg n q n' BO St WF Nu Iu H; [discriminate|].
   set (u := req p usg) in *.
@@ -68,8 +68,8 @@ Proof.
     simpl in BO. apply andb_true_iff in BO. destruct BO as [_ Ncs]. apply nodupb_NoDup in Ncs.
     exists st. split; [simpl; rewrite G; f_equal; apply sel_id_table; assumption|].
     destruct (negb (is_nil u) && negb (set_eqb u cs)) eqn:C; injection H as <- _.
-    + split; [|intros _ _; apply merge_inv_not_mergeable]. apply delivers_table_reference with (cs := cs); try assumption. destruct u; [discriminate|discriminate].
-    + split; [|intros _ _; apply merge_inv_table]. apply (delivers_table fl e name cs st u (filter (fun c => mem c u) cs) G WT Ncs).
+    + split; [|intros _; apply merge_invN_not_mergeable]. apply delivers_table_reference with (cs := cs); try assumption. destruct u; [discriminate|discriminate].
+    + split; [|intros _; apply merge_invN_table]. apply (delivers_table fl e name cs st u (filter (fun c => mem c u) cs) G WT Ncs).
       * intros c Hc. apply filter_In. split; [apply Iu, Hc|apply mem_In, Hc].
       * intros c Hc. apply filter_In in Hc. tauto.
       * apply NoDup_filter, Ncs.
@@ -86,7 +86,7 @@ Proof.
         { intros k Ik. specialize (Iu k Ik). simpl in Iu. apply in_ext_cols in Iu. destruct Iu as [X|X]; [exact X|destruct (Hno k Ik X)]. }
         destruct (IH d s (Some u) n q n' BOs Sts (wf_env_unary e _ s eq_refl WF) Nu Ius H) as [S [ES [D MI]]].
         exists (sem_wextend fl ops w S). split; [simpl; rewrite ES; reflexivity|]. cbn [req] in D.
-        split; [|intros _ X; discriminate X]. apply (delivers_transfer fl e q u S); [exact D| | |].
+        split; [|exact MI]. apply (delivers_transfer fl e q u S); [exact D| | |].
         + rewrite <- (sel_wextend_unused fl ops w S [] (sem_rows_width fl s e S ES)); [reflexivity|intros k []].
         + intros K IK. apply sel_wextend_unused; [exact (sem_rows_width fl s e S ES)|]. intros k Ik. apply Hno, IK, Ik.
         + simpl. intros k Ik. apply in_ext_cols. left. rewrite (sem_cols fl s e S ES). apply Ius, Ik.
@@ -114,23 +114,36 @@ Proof.
         rewrite Sb in H. cbn [negb] in H. unfold bind in H.
         set (su := cfs1 (OExtend s ops true w) u1) in *.
         destruct (to_near_f fuel d s (Some su) n) as [[sub n1]| |] eqn:ER; try discriminate.
-        assert (d_allow_extend_merges d = true -> forall tms0 deps0, try_sql_merge sub tms0 deps0 = None) as HN.
-        { intros HM tms0 deps0. apply not_mg_merge. apply (gen_not_mg fuel d s (Some su) n sub n1); [|exact ER].
-          rewrite HM in Wd. simpl in Wd. apply negb_true_iff in Wd. exact Wd. }
-        rewrite merge_branch_none in H by (intros HM; apply HN, HM). injection H as <- _.
         assert (NoDup su /\ incl su (column_names s)) as [Nsu Isu].
         { pose proof (builder_ok_nodup s BOs) as Ns. unfold su, cfs1. simpl. destruct (sub_ops u1 ops); [split; [exact Ns|apply incl_refl]|].
           split; [apply NoDup_filter, Ns|intros c Hc; apply filter_In in Hc; tauto]. }
         destruct (IH d s (Some su) n sub n1 BOs Sts (wf_env_unary e _ s eq_refl WF) Nsu Isu ER) as [S [ES [D MI]]]. cbn [req] in D.
-        exists (sem_wextend fl ops w S). split; [simpl; rewrite ES; reflexivity|]. split; [|intros _ X; discriminate X].
+        exists (sem_wextend fl ops w S). split; [simpl; rewrite ES; reflexivity|].
         assert (sub_ops u1 ops <> []) as NSub1 by (rewrite ESO; exact NSub).
-        rewrite <- ESO.
-        exact (node_wextend fl e s ops w sub u u1 S _ _ BO ES Nu Nu1 (fun c Hc => proj2 (Hu1 c) (or_introl Hc)) Iu1 NSub1
-                            (fun c Hc => proj2 (Hu1 c) (or_intror Hc)) D). }
-    apply andb_true_iff in Wd. destruct Wd as [Wd Wg]. apply window_empty_is in Wd. subst w.
-    assert (d_allow_extend_merges d = true -> win_top s = false) as WTs.
-    { intros HM. rewrite HM in Wg. simpl in Wg. apply negb_true_iff in Wg. exact Wg. }
-    clear Wg.
+        assert (u <> []) as NEU.
+        { intros X. apply NSub1. rewrite ESO, X. clear. unfold sub_ops. induction ops as [|a0 t IHo]; simpl; [reflexivity|exact IHo]. }
+        rewrite <- ESO in H.
+        set (so := sub_ops u1 ops) in *. set (oc := filter (fun k => negb (mem k (map fst so))) u1) in *.
+        assert (forall nm0 dp0, Delivers fl e (TUnary nm0 (norm (win_terms oc so w)) sub (mk_tci (Some su) false None) SfxNone true dp0) u (sem_wextend fl ops w S)) as FreshD.
+        { intros nm0 dp0. exact (node_wextend fl e s ops w sub u u1 S nm0 dp0 BO ES Nu Nu1 (fun c Hc => proj2 (Hu1 c) (or_introl Hc)) Iu1 NSub1
+                                  (fun c Hc => proj2 (Hu1 c) (or_intror Hc)) D). }
+        assert (merge_okN (win_terms oc so w) (win_deps oc so w)) as MOKw.
+        { apply extend_deps_okN_win; [apply NoDup_filter, Nu1|apply NoDup_map_fst_filter, Nk| |exact NSub1].
+          intros k Hk. unfold oc in Hk. apply filter_In in Hk. destruct Hk as [_ Hk]. apply negb_true_iff, mem_false in Hk. exact Hk. }
+        assert (norm (win_terms oc so w) = Some (win_terms oc so w)) as ENw by (destruct MOKw as [NL _]; destruct (win_terms oc so w); [congruence|reflexivity]).
+        assert (MergeInvN (TUnary (mkvn "extend" n1) (norm (win_terms oc so w)) sub (mk_tci (Some su) false None) SfxNone true (Some (win_deps oc so w)))) as FreshM.
+        { intros n0' ts0 s00 ci0 sfx0 dp0 Eq. injection Eq as _ E2 _ _ E5 E6. subst sfx0 dp0. split; [reflexivity|].
+          exists (win_terms oc so w). split; [rewrite <- E2; exact ENw|exact MOKw]. }
+        destruct (d_allow_extend_merges d) eqn:HMd.
+        + destruct (try_sql_merge sub _ _) as [[m0| |]|] eqn:EM; try discriminate; injection H as <- _; [|split; [exact (FreshD _ _)|intros _; exact FreshM]].
+          destruct (try_sql_merge_inv _ _ _ _ EM) as [n0 [ts [s00 [ci0 [ds [Esub [Hcont Em]]]]]]]. subst sub m0.
+          destruct (MI eq_refl n0 (Some ts) s00 ci0 SfxNone ds eq_refl) as [_ [l0 [El MOKs]]]. injection El as <-.
+          destruct (merged_wextend_N fl e s ops w n0 ts s00 ci0 ds u u1 S BO ES Nu Nu1 (fun c Hc => proj2 (Hu1 c) (or_introl Hc)) Iu1 NSub1
+                      (fun c Hc => proj2 (Hu1 c) (or_intror Hc)) NEU Nsu D MOKs Hcont) as [DM MOKm].
+          split; [exact DM|]. intros _ n1' ts1 s1' ci1 sfx1 dp1 Eq. injection Eq as _ E2 _ _ E5 E6. subst sfx1 dp1. split; [reflexivity|].
+          eexists. split; [symmetry; exact E2|exact MOKm].
+        + injection H as <- _. split; [exact (FreshD _ _)|intros HM; discriminate]. }
+    apply window_empty_is in Wd. subst w.
     destruct (bok_extend_full _ _ _ _ BO) as [BOs [Ic Nk]].
     unfold gen_extend in H.
     change (match usg with Some u0 => u0 | None => column_names (OExtend s ops false no_window) end) with u in H.
@@ -142,7 +155,7 @@ Proof.
       { intros k Ik. specialize (Iu k Ik). simpl in Iu. apply in_ext_cols in Iu. destruct Iu as [X|X]; [exact X|destruct (Hno k Ik X)]. }
       destruct (IH d s (Some u) n q n' BOs Sts (wf_env_unary e _ s eq_refl WF) Nu Ius H) as [S [ES [D MI]]].
       exists (sem_extend fl ops S). split; [simpl; rewrite ES; reflexivity|]. cbn [req] in D.
-      split; [|intros HM _; exact (MI HM (WTs HM))]. apply (delivers_transfer fl e q u S); [exact D| | |].
+      split; [|exact MI]. apply (delivers_transfer fl e q u S); [exact D| | |].
       * rewrite <- (sel_extend_unused fl ops S [] (sem_rows_width fl s e S ES)); [reflexivity|intros k []].
       * intros K IK. apply sel_extend_unused; [exact (sem_rows_width fl s e S ES)|]. intros k Ik. apply Hno, IK, Ik.
       * simpl. intros k Ik. apply in_ext_cols. left. rewrite (sem_cols fl s e S ES). apply Ius, Ik.
@@ -169,19 +182,20 @@ Proof.
                                           (mk_tci (Some su) false None) SfxNone true
                                           (Some (map (fun k => (k, [k])) origcols ++ map (fun ke => (fst ke, set_union (py_set (cols_used (snd ke))) [])) subops)))
                                    u (sem_extend fl ops S)
-                          /\ MergeInv (TUnary nm0 (norm (pass_terms origcols ++ map (fun ke => (fst ke, TmExpr (snd ke))) subops)) sub
+                          /\ MergeInvN (TUnary nm0 (norm (pass_terms origcols ++ map (fun ke => (fst ke, TmExpr (snd ke))) subops)) sub
                                           (mk_tci (Some su) false None) SfxNone true
                                           (Some (map (fun k => (k, [k])) origcols ++ map (fun ke => (fst ke, set_union (py_set (cols_used (snd ke))) [])) subops)))) as Fresh.
       { intros nm0. split; [exact (node_extend fl e s ops sub u S nm0 _ BO ES Nu Iu NSub D)|].
         intros n0 ts0 s00 ci0 sfx0 dp0 Eq. injection Eq as _ E2 _ _ E5 E6. subst sfx0 dp0. split; [reflexivity|].
-        exists (pass_terms origcols ++ map (fun ke => (fst ke, TmExpr (snd ke))) subops). split; [|exact MOK].
+        exists (pass_terms origcols ++ map (fun ke => (fst ke, TmExpr (snd ke))) subops). split; [|exact (merge_ok_weaken _ _ MOK)].
         rewrite <- E2. destruct MOK as [NL _]. destruct (pass_terms origcols ++ _); [congruence|reflexivity]. }
       destruct (d_allow_extend_merges d) eqn:HMd.
-      * destruct (try_sql_merge sub _ _) as [[m| |]|] eqn:EM; try discriminate; injection H as <- _; [|split; [exact (proj1 (Fresh _))|intros _ _; exact (proj2 (Fresh _))]].
+      * destruct (try_sql_merge sub _ _) as [[m| |]|] eqn:EM; try discriminate; injection H as <- _; [|split; [exact (proj1 (Fresh _))|intros _; exact (proj2 (Fresh _))]].
         destruct (try_sql_merge_inv _ _ _ _ EM) as [n0 [ts [s00 [ci0 [ds [Esub [Hcont Em]]]]]]]. subst sub m.
-        destruct (MI eq_refl (WTs eq_refl) n0 (Some ts) s00 ci0 SfxNone ds eq_refl) as [_ [l0 [El MOKs]]]. injection El as <-.
-        destruct (merged_delivers fl e s ops n0 ts s00 ci0 ds u S BO ES Nu Iu NSub D MOKs Hcont) as [DM MOKm].
-        split; [exact DM|]. intros _ _ n1' ts1 s1' ci1 sfx1 dp1 Eq. injection Eq as _ E2 _ _ E5 E6. subst sfx1 dp1. split; [reflexivity|].
+        destruct (MI eq_refl n0 (Some ts) s00 ci0 SfxNone ds eq_refl) as [_ [l0 [El MOKs]]]. injection El as <-.
+        assert (u <> []) as NEU by (intros X; rewrite X in NU; discriminate NU).
+        destruct (merged_extend_N fl e s ops n0 ts s00 ci0 ds u S BO ES Nu Iu NSub NEU D MOKs Hcont) as [DM MOKm].
+        split; [exact DM|]. intros _ n1' ts1 s1' ci1 sfx1 dp1 Eq. injection Eq as _ E2 _ _ E5 E6. subst sfx1 dp1. split; [reflexivity|].
         eexists. split; [symmetry; exact E2|exact MOKm].
       * injection H as <- _. split; [exact (proj1 (Fresh _))|intros HM; discriminate].
   - (* project *)
@@ -211,7 +225,7 @@ Proof.
       unfold ops_cols in *. apply in_flat_map in Hc. destruct Hc as [ke [I1 I2]]. apply in_flat_map. exists ke. split; [|exact I2]. apply filter_In in I1. tauto. }
     destruct (IH d s (Some su) n sub n1 BOs Sts (wf_env_unary e _ s eq_refl WF) Nsu Isu ER) as [S [ES [D MI]]]. cbn [req] in D.
     exists (sem_project fl ops gb S). split; [simpl; rewrite ES; reflexivity|].
-    split; [apply (node_project fl e s ops gb sub u u1 S _ BO NE0 ES Nu Iuu1 Iu1 Hsub D)|intros _ _; apply merge_inv_not_mergeable].
+    split; [apply (node_project fl e s ops gb sub u u1 S _ BO NE0 ES Nu Iuu1 Iu1 Hsub D)|intros _; apply merge_invN_not_mergeable].
   - (* select_rows *)
     simpl in St. pose proof (bok_select_rows _ _ BO) as BOs.
     change (match usg with Some u0 => u0 | None => column_names (OSelectRows s x) end) with u in H. unfold bind in H.
@@ -224,7 +238,7 @@ Proof.
       intros c Hc. apply In_set_union in Hc. destruct Hc as [Hc|Hc]; [apply In_set_inter in Hc; tauto|apply Ix, Hc]. }
     destruct (IH d s (Some su) n sub n1 BOs St (wf_env_unary e _ s eq_refl WF) Nsu Isu ER) as [S [ES [D MI]]]. cbn [req] in D.
     exists (sem_select_rows fl x S). split; [simpl; rewrite ES; reflexivity|].
-    split; [apply (node_select_rows fl e s x sub u S _ BO ES Nu Iu D)|intros _ _; apply merge_inv_not_mergeable].
+    split; [apply (node_select_rows fl e s x sub u S _ BO ES Nu Iu D)|intros _; apply merge_invN_not_mergeable].
   - (* select_columns *)
     simpl in St. destruct (bok_select_cols _ _ BO) as [BOs Ncs].
     assert (incl cs (column_names s)) as Ics.
@@ -244,7 +258,7 @@ Proof.
         assert (tkeys sub = []) as EK by (destruct sub as [n0 [ts|]|nm [l|] s0 ci sfx mg dp|nm [l|] s1 c1 j s2 c2 on]; try discriminate; reflexivity).
         pose proof (dv_incl _ _ _ _ _ D c0 (or_introl eq_refl)) as X. rewrite EK in X. destruct X.
       - destruct (narrow_or_first sub su) as [q0|]; [|discriminate]. injection H as <- _. exists q0. split; reflexivity. }
-    split; [|intros HM WT; exact (merge_inv_narrow sub su q' (MI HM WT) Nsu Eq')].
+    split; [|intros HM; exact (merge_invN_narrow sub su q' (MI HM) Nsu Eq')].
     apply (delivers_narrowing fl e sub su S su u (sel cs S) D Nsu (incl_refl _)); try assumption.
     + intros c Hc. apply Hsu. split; [apply Iu, Hc|exact Hc].
     + apply sel_nil_sel.
@@ -270,7 +284,7 @@ Proof.
     rewrite Esu in D.
     assert (incl u (cols (sem_drop_cols ds S))) as IuT.
     { intros c Hc. simpl. apply filter_In. rewrite (sem_cols fl s e S ES). split; [apply Hu, Hc|apply negb_true_iff, mem_false; apply Hu, Hc]. }
-    split; [|intros HM WT; exact (merge_inv_narrow sub u q' (MI HM WT) Nu Eq')].
+    split; [|intros HM; exact (merge_invN_narrow sub u q' (MI HM) Nu Eq')].
     apply (delivers_narrowing fl e sub u S u u (sem_drop_cols ds S) D Nu (incl_refl _) (incl_refl _) IuT); try assumption.
     + unfold sem_drop_cols. apply sel_nil_sel.
     + intros C IC. unfold sem_drop_cols. apply sel_sel. intros c Hc. apply IuT, IC, Hc.
@@ -284,7 +298,7 @@ Proof.
       destruct (get_rename m (column_names s) (column_names s) [] k OK (incl_refl _) (Iu k Ik)) as [_ [X _]]. exact X. }
     destruct (IH d s (Some su) n sub n1 BOs St (wf_env_unary e _ s eq_refl WF) Nsu Isu ER) as [S [ES [D MI]]]. cbn [req] in D.
     exists (sem_rename m S). split; [simpl; rewrite ES; reflexivity|].
-    split; [apply (node_rename fl e s m sub u S _ BO ES Nu Iu D)|intros _ _; apply merge_inv_not_mergeable].
+    split; [apply (node_rename fl e s m sub u S _ BO ES Nu Iu D)|intros _; apply merge_invN_not_mergeable].
   - (* map_columns *)
     simpl in St. destruct (bok_map_cols _ _ _ BO) as [BOs OK].
     change (match usg with Some u0 => u0 | None => column_names (OMapCols s m dels) end) with u in H. unfold bind in H.
@@ -300,7 +314,7 @@ Proof.
       destruct (get_rename m (column_names s) (column_names s) [] k OK (incl_refl _) Iu) as [_ [X _]]. exact X. }
     destruct (IH d s (Some su) n sub n1 BOs St (wf_env_unary e _ s eq_refl WF) Nsu Isu ER) as [S [ES [D MI]]]. cbn [req] in D.
     exists (sem_drop_cols dels (sem_rename m S)). split; [simpl; rewrite ES; reflexivity|].
-    split; [apply (node_map_cols fl e s m dels sub u S _ BO ES Nu Iu D)|intros _ _; apply merge_inv_not_mergeable].
+    split; [apply (node_map_cols fl e s m dels sub u S _ BO ES Nu Iu D)|intros _; apply merge_invN_not_mergeable].
   - (* order_rows *)
     simpl in St. pose proof (bok_order _ _ _ _ BO) as BOs.
     change (match usg with Some u0 => u0 | None => column_names (OOrder s cs rev lim) end) with u in H. unfold bind in H.
@@ -311,7 +325,7 @@ Proof.
     { split; [apply NoDup_filter, (builder_ok_nodup s BOs)|]. intros c Hc. apply filter_In in Hc. tauto. }
     destruct (IH d s (Some su) n sub n1 BOs St (wf_env_unary e _ s eq_refl WF) Nsu Isu ER) as [S [ES [D MI]]]. cbn [req] in D.
     exists (sem_order fl cs rev lim S). split; [simpl; rewrite ES; reflexivity|].
-    split; [apply (node_order fl e s cs rev lim sub u S _ BO ES Nu Iu D)|intros _ _; apply merge_inv_not_mergeable].
+    split; [apply (node_order fl e s cs rev lim sub u S _ BO ES Nu Iu D)|intros _; apply merge_invN_not_mergeable].
   - (* natural_join written as a join (no rewrite) *)
     cbn [stage1] in St. rewrite !andb_true_iff in St. destruct St as [[Sta Stb] Jk].
     unfold join_covered in Jk. rewrite !andb_true_iff in Jk. destruct Jk as [[Carry NM] Jt]. apply negb_true_iff in NM.
@@ -326,7 +340,7 @@ Proof.
       exists A. split; [exact EA|]. split; [exact DA|]. exact (gen_bare_ok e fuel d a (Some ul) n1 ql n2 BOa WFa Il E1).
     + intros ur qr n1 n2 Nr Ir E1. destruct (IH d b (Some ur) n1 qr n2 BOb Stb WFb Nr Ir E1) as [B [EB [DB _]]].
       exists B. split; [exact EB|]. split; [exact DB|]. exact (gen_bare_ok e fuel d b (Some ur) n1 qr n2 BOb WFb Ir E1).
-    + exists T. split; [exact ET|]. split; [exact D|intros _ _; exact MI].
+    + exists T. split; [exact ET|]. split; [exact D|intros _; exact (merge_inv_weaken _ MI)].
   - (* concat_rows *)
     simpl in St. rewrite !andb_true_iff in St. destruct St as [[Sta Stb] Sid].
     destruct (bok_concat _ _ _ _ _ BO) as [BOa [BOb Hab]].
@@ -370,18 +384,17 @@ Proof.
     assert (forall (x : op) (lab : string), builder_ok x = true -> stage1 (d_allow_extend_merges d) (join_covered d fl) x = true -> wf_env e x ->
               (forall c, In c (column_names a) <-> In c (column_names x)) ->
               match idc with Some _ => concat_src_ok x = true | None => True end ->
-              match idc with Some _ => d_allow_extend_merges d && win_top x = false | None => True end ->
               forall qx m1 m2, to_near_f fuel d (match idc with Some c => builder_extend_const x c (VStr lab) | None => x end) (Some uj) m1 = Ok (qx, m2) ->
               exists X, sem_gen fl x e = Some X /\
                         Delivers fl e qx uj (match idc with Some c => mktable (cols X ++ [c]) (map (fun r => r ++ [VStr lab]) (rows X)) | None => X end)) as Hop.
-    { intros x lab BOx Stx WFx Eax Okx Wtx qx m1 m2 ER.
+    { intros x lab BOx Stx WFx Eax Okx qx m1 m2 ER.
       assert (forall c, In c uj -> In c (column_names x) \/ match idc with Some c0 => c = c0 | None => False end) as Ijx.
       { intros c Hc. apply Huj in Hc. destruct Hc as [[Hc _]|Hc]; [left; apply Eax, Hc|right; exact Hc]. }
       destruct idc as [c0|].
       - assert (~ In c0 (column_names x)) as Ncx by (intros I; apply Hab, Eax, I).
         destruct (builder_extend_const_cases x c0 (VStr lab) Okx) as [EB|[s0 [ops0 [Ex EB]]]]; rewrite EB in ER.
         + assert (builder_ok (OExtend x [(c0, EConst (VStr lab))] false no_window) = true) as BOe by (simpl; rewrite BOx; reflexivity).
-          assert (stage1 (d_allow_extend_merges d) (join_covered d fl) (OExtend x [(c0, EConst (VStr lab))] false no_window) = true) as Ste by (simpl; rewrite Stx; simpl; rewrite Wtx; reflexivity).
+          assert (stage1 (d_allow_extend_merges d) (join_covered d fl) (OExtend x [(c0, EConst (VStr lab))] false no_window) = true) as Ste by (simpl; rewrite Stx; reflexivity).
           assert (incl uj (column_names (OExtend x [(c0, EConst (VStr lab))] false no_window))) as Ije.
           { intros c Hc. simpl. apply In_add_end. destruct (Ijx c Hc) as [X|X]; [left; exact X|right; exact X]. }
           destruct (IH d _ (Some uj) m1 qx m2 BOe Ste (wf_env_unary e _ x eq_refl WFx) Nuj Ije ER) as [TX [ETX [DX _]]]. cbn [req] in DX.
@@ -406,16 +419,12 @@ Proof.
       - assert (incl uj (column_names x)) as Ije by (intros c Hc; destruct (Ijx c Hc) as [X|[]]; exact X).
         destruct (IH d x (Some uj) m1 qx m2 BOx Stx WFx Nuj Ije ER) as [X [EX [DX _]]]. exists X. split; [exact EX|exact DX]. }
     assert (match idc with Some _ => concat_src_ok a = true | None => True end /\ match idc with Some _ => concat_src_ok b = true | None => True end) as [Oka Okb].
-    { destruct idc; [rewrite !andb_true_iff in Sid; tauto|split; exact I]. }
-    assert (match idc with Some _ => d_allow_extend_merges d && win_top a = false | None => True end /\
-            match idc with Some _ => d_allow_extend_merges d && win_top b = false | None => True end) as [Wta Wtb].
-    { destruct idc; [|split; exact I]. rewrite !andb_true_iff in Sid. destruct Sid as [_ Wab].
-      destruct (d_allow_extend_merges d), (win_top a), (win_top b); simpl in Wab; try discriminate Wab; split; reflexivity. }
-    destruct (Hop a an BOa Sta WFa (fun c => iff_refl _) Oka Wta ql n n1 ERl) as [A [EA DA]].
-    destruct (Hop b bn BOb Stb WFb Eab Okb Wtb qr n1 n2 ERr) as [B [EB DB]].
+    { destruct idc; [apply andb_true_iff in Sid; exact Sid|split; exact I]. }
+    destruct (Hop a an BOa Sta WFa (fun c => iff_refl _) Oka ql n n1 ERl) as [A [EA DA]].
+    destruct (Hop b bn BOb Stb WFb Eab Okb qr n1 n2 ERr) as [B [EB DB]].
     pose proof (sem_cols fl a e A EA) as ECA. pose proof (sem_cols fl b e B EB) as ECB.
     exists (sem_concat idc an bn A B). split; [simpl; rewrite EA, EB; reflexivity|].
-    split; [|intros _ _; apply merge_inv_binary].
+    split; [|intros _; apply merge_invN_binary].
     apply (delivers_union fl e _ uj ql qr _ _ u (sem_concat idc an bn A B) DA DB Nuj NUj).
     + intros c Hc. apply Iu1j, Iuu1, Hc.
     + intros c Hc. specialize (Iu c Hc). rewrite ECp in Iu. unfold sem_concat. destruct idc; cbn [cols]; rewrite ECA; [exact Iu|rewrite app_nil_r in Iu; exact Iu].
